@@ -68,9 +68,15 @@ def gen_scenario(rng, max_levels=4, max_leaves=8, n_cells=None, tree=None, dyadi
                     lst[0] = rng.choice(usable)
                 markers[key] = lst
         else:
-            # single-child parent: usually nothing; sometimes genes that are all present in the query
-            if rng.random() < 0.3:
+            # single-child parent: usually nothing; sometimes genes of the query, sometimes (since the repair of
+            # F7, /repo 05db7b2) reference genes none of which is in the query: such an entry needs no markers
+            r = rng.random()
+            if r < 0.3:
                 markers[key] = rng.sample(usable, min(2, len(usable)))
+            elif r < 0.4:
+                absent = [g for g in ref if g not in usable]
+                if absent:
+                    markers[key] = rng.sample(absent, min(2, len(absent)))
     sc.markers = markers
     n_cells = n_cells or rng.randrange(1, 10)
     sc.cell_ids = [f'c{x:03d}' for x in rng.sample(range(200), n_cells)]
